@@ -186,7 +186,7 @@ def _shared_r4(ctx):
 def _round6(ctx):
     """Rules that are necessary conditions of this property too (found by seeding round 6)."""
     from rules import arms as A
-    with ctx.rule('R19.6', "the URL's connection_timeout is armed before the transport is touched: start / start_tls install it from the options (shared with C16)", floor=6) as r:
+    with ctx.rule('R19.6', "the URL's connection_timeout is armed before the transport is touched: start / start_tls install it from the options (shared with C16)", floor=6, floor_notls=5) as r:
         A.include(ctx, r, 'c16', 'R16.5', pick=('timeout-from-options', 'timeout-writers', 'timeout-guards', 'timeout-return', 'poll-uses-timeout'))
 
 
